@@ -350,6 +350,13 @@ def r_nevra_format(model, rep):
             if ok and not ok2:
                 ok, msg = False, "the dict formatted is not parse_nvra(<argument>)"
     rep.ob("R-NEVRA-FORMAT", "Rpms._check_nevra:canonical-format", ok, site=cx.site(f.node), msg=msg)
+    # the parsed dict is only patched in its epoch entry, with "the parsed epoch, 0 when there is none"
+    sts = [ev for ev in cx.events if ev.kind == "store" and ev.target[0] == "sub" and ev.target[1][0] == "call"
+           and ev.target[1][1][0] == "global" and ev.target[1][1][1].endswith("parse_nvra")]
+    oke = all(ev.target[2] == ("const", "epoch") and not [g for g in ev.guards if g[0][0] != "exc" and g[1]]
+              and ev.value == ("boolop", "or", (("sub", ev.target[1], ("const", "epoch")), ("const", 0))) for ev in sts)
+    rep.ob("R-NEVRA-FORMAT", "Rpms._check_nevra:epoch-kept", oke, site=cx.site(sts[0].lineno if sts else f.node),
+           msg="" if oke else "the parsed epoch must be kept (only a missing one becomes 0) and nothing else of the parsed name rewritten")
     # refuses a missing epoch, converts an unparsable name into ValueError
     miss = [ev for ev in cx.events if ev.kind == "raise" and any(
         g[1] and g[0] == ("cmp", ("not in",), (("const", ":"), ("param", cx.params[1]))) for g in ev.guards)]
